@@ -11,6 +11,9 @@ Decided statically:
   C04.while   `while` re-evaluates (and type-checks) its condition on every path from the end of an iteration
               back to the loop test - also after `continue`
   C04.order   `for` enumerates sets and map keys through the sorted views
+  C04.same    for every collection kind and qualifier (none / keys / values / entries) the for statement and the
+              comprehensions enumerate the same thing (both evaluators specialised by partial evaluation and the
+              shape of the element compared)
   C04.pair    in the two-generator comprehensions every statement uses the fields of ONE generator (list1 with
               what1 and identifier1, list2 with what2 and identifier2), except where both lengths are combined
 Not decided: element-level equality of comprehension and loop results.
@@ -94,6 +97,103 @@ def _signal_outcome(loop, eval_suffix, sig):
     if outcome == "continue":
         return "continue" if isinstance(loop, ast.While) else "stay", altered, at
     return outcome, altered, at
+
+
+def same_elements(ctx, model, nf, gcv):
+    from ..partial import prune
+    kinds = sorted({x.func.attr for x in ast.walk(nf.node) if isinstance(x, ast.Call)
+                    and isinstance(x.func, ast.Attribute) and norm(x.func.value) == "lst"
+                    and x.func.attr.startswith("is") and not x.args})
+    cparam, wparam = gcv.params[0], gcv.params[1]
+    ckinds = sorted({x.func.attr for x in ast.walk(gcv.node) if isinstance(x, ast.Call)
+                     and isinstance(x.func, ast.Attribute) and norm(x.func.value) == cparam
+                     and x.func.attr.startswith("is") and not x.args})
+    quals = ("keys", "values", "entries")
+
+    def shape_of_loop_value(body):
+        """what the block-running loop binds to the loop variable: 'key' / 'value' / 'entry' / None"""
+        for st in body:
+            for lp in ast.walk(st):
+                if not (isinstance(lp, ast.For) and any(isinstance(x, ast.Call) and norm(x.func) == "self.block.evaluate"
+                                                        for x in ast.walk(lp))):
+                    continue
+                tg = [norm(x) for x in lp.target.elts] if isinstance(lp.target, ast.Tuple) else [norm(lp.target)]
+                puts = [c for c in ast.walk(lp) if isinstance(c, ast.Call) and isinstance(c.func, ast.Attribute)
+                        and c.func.attr == "put" and len(c.args) == 2 and norm(c.args[0]) == "self.identifiers[0]"]
+                if not puts:
+                    return None
+                v = puts[0].args[1]
+                env = {}
+                adds = {}
+                for a_ in lp.body:
+                    for x in ast.walk(a_):
+                        if isinstance(x, ast.Assign) and isinstance(x.targets[0], ast.Name):
+                            env[x.targets[0].id] = x.value
+                        if isinstance(x, ast.Call) and isinstance(x.func, ast.Attribute) and x.func.attr == "addItem" \
+                                and isinstance(x.func.value, ast.Name):
+                            adds.setdefault(x.func.value.id, []).append(x.args[0])
+                    if any(c is puts[0] for c in ast.walk(a_)):
+                        break
+                hops = 0
+                while isinstance(v, ast.Name) and v.id in env and hops < 4:
+                    if v.id in adds and len(adds[v.id]) == 2:
+                        return "entry"
+                    v = env[v.id]
+                    hops += 1
+                t = norm(v)
+                if len(tg) == 2:
+                    if t in (tg[0], f"ValueString({tg[0]})"):
+                        return "key"
+                    if t == tg[1]:
+                        return "value"
+                if isinstance(v, ast.Name) and v.id in adds and len(adds[v.id]) == 2:
+                    return "entry"
+                return None
+        return None
+
+    def shape_of_source(body):
+        rets = [r for st in body for r in ast.walk(st) if isinstance(r, ast.Return) and r.value is not None]
+        if len(rets) != 1:
+            return None
+        single = {}
+        for st in body:
+            for a_ in ast.walk(st):
+                if isinstance(a_, ast.Assign) and len(a_.targets) == 1 and isinstance(a_.targets[0], ast.Name):
+                    single.setdefault(a_.targets[0].id, []).append(norm(a_.value))
+        t = norm(rets[0].value)
+        for nm, vals in single.items():
+            if len(vals) == 1:
+                t = re.sub(r"\b" + re.escape(nm) + r"\b", vals[0], t)
+        if "convertEntries(" in t:
+            return "entry"
+        if ".values()" in t or re.search(r"\.value\[\w+\] for \w+ in", t):
+            return "value"
+        if ".keys()" in t or "getSortedKeys()" in t:
+            return "key"
+        return None
+
+    n = 0
+    for kind in ("isMap", "isObject"):
+        if kind not in kinds or kind not in ckinds:
+            ctx.broken("NodeFor / getCollectionValue", f"no `{kind}()` test found")
+        for q in (None,) + quals:
+            known_f = {f"lst.{k}()": k == kind for k in kinds}
+            known_f.update({f"self.what == '{x}'": x == q for x in quals})
+            fb, _ = prune(nf.node.body, known_f)
+            known_c = {f"{cparam}.{k}()": k == kind for k in ckinds}
+            known_c.update({f"{wparam} == '{x}'": x == q for x in quals})
+            cb, _ = prune(gcv.node.body, known_c)
+            a, b = shape_of_loop_value(fb), shape_of_source(cb)
+            if a is None or b is None:
+                ctx.broken("NodeFor / getCollectionValue", f"element shape for {kind[2:].lower()} / {q} not understood "
+                                                            f"(for: {a}, comprehension: {b})")
+            n += 1
+            ctx.check("C04.same", nf, None, a == b,
+                      f"over a {kind[2:].lower()} {'with qualifier `' + q + '`' if q else 'without qualifier'} the for "
+                      f"statement binds the {a} and a comprehension draws the {b}: the comprehension does not yield "
+                      f"the elements of its explicit loop",
+                      expr=f"{kind[2:].lower()} {q or 'unqualified'}: for={a} comprehension={b}",
+                      site=f"{kind[2:].lower()} / {q or 'no qualifier'}: for statement and comprehension enumerate the same thing")
 
 
 def run(ctx):
@@ -243,6 +343,40 @@ def run(ctx):
         ctx.check("C04.signal", m, None, unwrap and rej,
                   f"{m.qual} does not unwrap `return` and reject stray break/continue", expr=f"{m.qual} unwrap",
                   site=f"{m.qual}: return unwrapped, stray break/continue rejected")
+    # the parser replaces a trailing `return x` by `x` only for the whole script (top level): anywhere else the return
+    # must stay a return, or `( ...; return v )` inside a function stops leaving the function
+    pm = model.module(P, "parser")
+    unwrappers = [f_ for f_ in pm.funcs.values() if any(
+        isinstance(n_, ast.Call) and norm(n_.func) == "isinstance" and len(n_.args) == 2 and norm(n_.args[1]) == "NodeReturn"
+        for n_ in ast.walk(f_.node)) and any(isinstance(n_, ast.Attribute) and n_.attr == "expression"
+                                            for n_ in ast.walk(f_.node))]
+    if not unwrappers:
+        ctx.broken("parser.py", "the top-level `return x` -> `x` rewrite was not found")
+    from ..facts import must_facts as _mfu
+    for uw in unwrappers:
+        if uw.name == "parse":
+            ctx.ob("C04.signal", "parser.parse: trailing return of the script is replaced by its expression", True)
+            continue
+        for caller in pm.funcs.values():
+            gcl = None
+            for c_ in ast.walk(caller.node):
+                if isinstance(c_, ast.Call) and isinstance(c_.func, ast.Name) and c_.func.id == uw.name:
+                    if caller.name == "parse":
+                        ctx.ob("C04.signal", f"parser.parse: {uw.name}(..) at top level", True)
+                        continue
+                    if gcl is None:
+                        gcl = CFG(caller.node, implicit_exc=False)
+                        fcl = _mfu(gcl)
+                    ok_ = False
+                    for node in gcl.nodes:
+                        a_ = node.ast if node.kind != "for" else None
+                        if a_ is not None and any(x is c_ for x in ast.walk(a_)):
+                            ok_ = ("toplevel", True) in fcl.get(node.id, frozenset())
+                    ctx.check("C04.signal", caller, c_, ok_,
+                              f"{caller.qual} strips a trailing `return` ({uw.name}) where the sequence is not known to "
+                              f"be the whole script: a `return v` at the end of a parenthesised sequence inside a "
+                              f"function no longer leaves the function",
+                              site=f"{caller.qual}: {uw.name}(..) only for the top-level script")
     # no other evaluator unwraps return signals
     for c in model.module(P, "nodes").classes.values():
         m = c.methods.get("evaluate")
@@ -389,6 +523,11 @@ def run(ctx):
                   f"{'the values sorted by value, not in the order of their keys - ' if by_value else ''}"
                   f"not the sorted order the for statement uses, so the comprehension and its explicit loop differ",
                   site=f"getCollectionValue ({kind[2:].lower()}): {t[:60]}")
+
+    # the for statement and the comprehensions agree on WHAT they enumerate (keys / values / entries) for every
+    # qualifier, including none: both evaluators are specialised per (collection kind, qualifier) and the shape of
+    # the element compared
+    same_elements(ctx, model, nf, gcv)
 
     # ---------------------------------------------------------------- paired comprehensions
     nodes = model.module(P, "nodes")
